@@ -71,3 +71,45 @@ func VerifC16_Histories() {
 		}
 	}
 }
+
+// C16 (c): Close racing with a direct announcement, a waiting consumer and an
+// un-cache call: every call returns (a call that can never return is a hang),
+// waiters get the closed error or a queued announcement, Close is idempotent.
+func VerifC16_Races() {
+	r, err := NewReceiver(nil, "")
+	verif_Assume(err == nil)
+	nextDone := make(chan error, 1)
+	go func() { // a consumer waiting for the next announcement
+		_, nerr := r.Next(context.Background())
+		nextDone <- nerr
+	}()
+	directDone := make(chan error, 2)
+	go func() { // two direct announcements: the second may have to wait for the consumer
+		directDone <- r.Direct(context.Background(), c09cid(1), peer.AddrInfo{ID: "P"})
+		directDone <- r.Direct(context.Background(), c09cid(2), peer.AddrInfo{ID: "P"})
+	}()
+	go func() { r.UncacheCid(c09cid(1)) }()
+	closers := 1 + verif_Choose("extraCloser", 0, 1)
+	closed := make(chan error, closers)
+	for i := 0; i < closers; i++ {
+		go func() { closed <- r.Close() }()
+	}
+	for i := 0; i < closers; i++ {
+		verif_Assert(<-closed == nil, "Close returns nil for every caller")
+	}
+	nerr := <-nextDone
+	verif_Assert(nerr == nil || nerr == ErrClosed, "a waiting consumer gets an announcement or the closed error")
+	for i := 0; i < 2; i++ {
+		derr := <-directDone
+		verif_Assert(derr == nil || derr == ErrClosed, "a direct announcement racing with Close succeeds or returns the closed error")
+	}
+	verif_Reach("all returned")
+	// later calls
+	verif_Assert(r.Direct(context.Background(), c09cid(3), peer.AddrInfo{ID: "P"}) == ErrClosed, "later direct announcements get the closed error")
+	r.UncacheCid(c09cid(2))
+	verif_Assert(r.Close() == nil, "Close can be repeated")
+	_, lerr := r.Next(context.Background())
+	verif_Assert(lerr == ErrClosed || lerr == nil, "later consumers return promptly")
+	verif_Quiesce()
+	verif_Assert(verif_LiveThreads() <= 0, "no goroutine is left behind")
+}
